@@ -248,7 +248,7 @@ func c15genShared(rng *core.Rng, tag string, custom bool, group string) c15sessi
 	// start-up parameters real drivers send (run-time settings included), in any number
 	pool := [][2]string{{"database", "db_" + tag}, {"application_name", core.Pick(rng, []string{"psql", "pgx", tag})}, {"client_encoding", "UTF8"},
 		{"DateStyle", "ISO, MDY"}, {"TimeZone", core.Pick(rng, []string{"UTC", "Europe/Amsterdam"})}, {"statement_timeout", core.Pick(rng, []string{"0", "1", "250", "60000"})},
-		{"lock_timeout", "100"}, {"idle_in_transaction_session_timeout", "5"}, {"search_path", "public"}, {"options", "-c geqo=off"},
+		{"lock_timeout", "100"}, {"idle_in_transaction_session_timeout", "5"}, {"search_path", "public"}, {"options", core.Pick(rng, []string{"-c geqo=off", "-c search_path=public -e", "-c geqo=off -d 2", "verbose", "--application_name=x -c statement_timeout=5", "-c user=postgres", "-c", "", "  ", "-c a\\ b=c"})},
 		{"extra_float_digits", core.Pick(rng, []string{"2", "3"})}, {"replication", "false"}}
 	for n := rng.Intn(5); n > 0; n-- {
 		s.Params = append(s.Params, pool[rng.Intn(len(pool))])
